@@ -229,6 +229,42 @@ def job_record_run(nant, nblocks, nsb):
     return recs
 
 
+def _helpers_total(npol, bits):
+    recs = []
+    taps, P, nc, nant, srv = 2, 8, 2, 1, 1024.0
+    ki, ni = z3.Int('k'), z3.Int('n')
+    k, n = Sym(z3.ToReal(ki), True), Sym(z3.ToReal(ni), True)
+    L = Sym(z3.Real('L'))
+    pre = [ki >= 1, ki <= 64, ni >= 0, ni <= 10 ** 6, L.t >= 0, L.t <= 1e6]
+    with volt_patches():
+        def run():
+            be, ant = mk_backend(nant, npol, bits, taps, P, nc, k, srv)
+            a = B.get_total_obs_num_samples(num_blocks=n, length_mode='num_blocks', num_antennas=nant, sample_rate=srv, block_size=be.block_size,
+                                            num_bits=bits, num_pols=npol, num_branches=P, num_chans=nc)
+            return be, a
+        leaves = core.explore(run, pre, cap=8)
+    for li, leaf in enumerate(leaves):
+        be, a = leaf.value
+        r, m = core.check(pre + leaf.pc + leaf.side + [lift(a) != n.t * lift(be.samples_per_block) * P], timeout_ms=60000)
+        recs.append(q(f"C20:helpers:total_samples:num_blocks:{npol}pol{bits}bit:leaf{li}", r))
+        if r == 'sat':
+            recs.append(cex('C20:helpers:total_samples', 'get_total_obs_num_samples(num_blocks) differs from n*samples_per_block*num_branches', dict(fn='helpers', which='total', bits=bits), name=f"C20:helpers:total_samples:num_blocks:{npol}pol{bits}bit:leaf{li}"))
+    with volt_patches():
+        def run2():
+            be, ant = mk_backend(nant, npol, bits, taps, P, nc, 3, srv)
+            a = B.get_total_obs_num_samples(obs_length=L, length_mode='obs_length', num_antennas=nant, sample_rate=srv, block_size=be.block_size,
+                                            num_bits=bits, num_pols=npol, num_branches=P, num_chans=nc)
+            return be, a, be.get_num_blocks(L)
+        leaves = core.explore(run2, pre, cap=8)
+    for li, leaf in enumerate(leaves):
+        be, a, nb = leaf.value
+        r, m = core.check(pre + leaf.pc + leaf.side + [lift(a) != lift(nb) * be.samples_per_block * P], timeout_ms=60000)
+        recs.append(q(f"C20:helpers:total_samples:obs_length:{npol}pol{bits}bit:leaf{li}", r))
+        if r == 'sat':
+            recs.append(cex('C20:helpers:total_samples', 'get_total_obs_num_samples(obs_length) disagrees with the backend block count', dict(fn='helpers', which='total', bits=bits), name=f"C20:helpers:total_samples:obs_length:{npol}pol{bits}bit:leaf{li}"))
+    return recs
+
+
 def job_helpers():
     """stand-alone helpers agree with the backend for the same (symbolic) inputs"""
     recs = []
@@ -254,38 +290,10 @@ def job_helpers():
             recs.append(q(f"C20:helpers:get_block_size:{bits}:leaf{li}", r))
             if r == 'sat':
                 recs.append(cex('C20:helpers:get_block_size', 'get_block_size differs from tchans*fftlength*int_factor*chans*antennas*bytes_per_sample', dict(fn='helpers', which='block_size', bits=bits), name=f"C20:helpers:get_block_size:{bits}:leaf{li}"))
-    # get_total_obs_num_samples vs backend, num_blocks mode (symbolic n, k) and obs_length mode (symbolic L)
-    npol, bits, taps, P, nc, nant, srv = 2, 8, 2, 8, 2, 1, 1024.0
-    ki, ni = z3.Int('k'), z3.Int('n')
-    k, n = Sym(z3.ToReal(ki), True), Sym(z3.ToReal(ni), True)
-    L = Sym(z3.Real('L'))
-    pre = [ki >= 1, ki <= 64, ni >= 0, ni <= 10 ** 6, L.t >= 0, L.t <= 1e6]
-    with volt_patches():
-        def run():
-            be, ant = mk_backend(nant, npol, bits, taps, P, nc, k, srv)
-            a = B.get_total_obs_num_samples(num_blocks=n, length_mode='num_blocks', num_antennas=nant, sample_rate=srv, block_size=be.block_size,
-                                            num_bits=bits, num_pols=npol, num_branches=P, num_chans=nc)
-            return be, a
-        leaves = core.explore(run, pre, cap=8)
-    for li, leaf in enumerate(leaves):
-        be, a = leaf.value
-        r, m = core.check(pre + leaf.pc + leaf.side + [lift(a) != n.t * lift(be.samples_per_block) * P], timeout_ms=60000)
-        recs.append(q(f"C20:helpers:total_samples:num_blocks:leaf{li}", r))
-        if r == 'sat':
-            recs.append(cex('C20:helpers:total_samples', 'get_total_obs_num_samples(num_blocks) differs from n*samples_per_block*num_branches', dict(fn='helpers', which='total', bits=bits), name=f"C20:helpers:total_samples:num_blocks:leaf{li}"))
-    with volt_patches():
-        def run2():
-            be, ant = mk_backend(nant, npol, bits, taps, P, nc, 3, srv)
-            a = B.get_total_obs_num_samples(obs_length=L, length_mode='obs_length', num_antennas=nant, sample_rate=srv, block_size=be.block_size,
-                                            num_bits=bits, num_pols=npol, num_branches=P, num_chans=nc)
-            return be, a, be.get_num_blocks(L)
-        leaves = core.explore(run2, pre, cap=8)
-    for li, leaf in enumerate(leaves):
-        be, a, nb = leaf.value
-        r, m = core.check(pre + leaf.pc + leaf.side + [lift(a) != lift(nb) * be.samples_per_block * P], timeout_ms=60000)
-        recs.append(q(f"C20:helpers:total_samples:obs_length:leaf{li}", r))
-        if r == 'sat':
-            recs.append(cex('C20:helpers:total_samples', 'get_total_obs_num_samples(obs_length) disagrees with the backend block count', dict(fn='helpers', which='total', bits=bits), name=f"C20:helpers:total_samples:obs_length:leaf{li}"))
+    # get_total_obs_num_samples vs backend, num_blocks mode (symbolic n, k) and obs_length mode (symbolic L),
+    # for every bytes-per-sample combination (8/4 bit x 1/2 polarisations)
+    for (npol, bits) in ((2, 8), (1, 8), (2, 4), (1, 4)):
+        recs += _helpers_total(npol, bits)
     # unit drift rate and frame parameters from backend parameters
     fi, ifi = z3.Int('fftlength'), z3.Int('int_factor')
     fft, intf = Sym(z3.ToReal(fi), True), Sym(z3.ToReal(ifi), True)
@@ -409,11 +417,17 @@ def replay_helpers(p):
     from setigen.voltage import backend as bk, level_utils as lu
     import setigen as stg
     msgs = []
-    if bk.get_block_size(num_antennas=2, tchans_per_block=3, num_bits=p['bits'], num_pols=2, num_branches=8, num_chans=5, fftlength=4, int_factor=7) != 3 * 4 * 7 * 5 * 2 * (2 * 2 * p['bits'] // 8):
-        msgs.append('get_block_size')
+    for bits in (8, 4):
+        for npol in (1, 2):
+            got = bk.get_block_size(num_antennas=2, tchans_per_block=3, num_bits=bits, num_pols=npol, num_branches=8, num_chans=5, fftlength=4, int_factor=7)
+            want = 3 * 4 * 7 * 5 * 2 * (2 * npol * bits // 8)
+            if got != want:
+                msgs.append(f'get_block_size(num_bits={bits}, num_pols={npol}) = {got}, the backend needs {want} bytes for the requested spectra')
+            be, _ = _real_backend(npol=npol, bits=bits)
+            tot = bk.get_total_obs_num_samples(num_blocks=7, length_mode='num_blocks', num_antennas=1, sample_rate=1024.0, block_size=be.block_size, num_bits=bits, num_pols=npol, num_branches=8, num_chans=2)
+            if tot != 7 * be.samples_per_block * 8:
+                msgs.append(f'get_total_obs_num_samples(num_bits={bits}, num_pols={npol}) = {tot}, the backend draws {7 * be.samples_per_block * 8}')
     be, _ = _real_backend()
-    if bk.get_total_obs_num_samples(num_blocks=7, length_mode='num_blocks', num_antennas=1, sample_rate=1024.0, block_size=be.block_size, num_bits=8, num_pols=2, num_branches=8, num_chans=2) != 7 * be.samples_per_block * 8:
-        msgs.append('get_total_obs_num_samples')
     if not np.isclose(lu.get_unit_drift_rate(be, 16, 3), (be.chan_bw / 16) / (be.tbin * 16 * 3)):
         msgs.append('unit drift rate')
     pd = stg.frame.params_from_backend(obs_length=1.3, sample_rate=1024.0, num_branches=8, fftlength=16, int_factor=2)
